@@ -196,7 +196,7 @@ def inline_temporaries(fnode, expr, depth=4, keep=(), inline_calls=False, inline
     definition and its use would be misread (not the case for the array differences and
     products this is used on)."""
     import copy
-    counts, defs = {}, {}
+    counts, defs, def_stmt_of = {}, {}, {}
     params = {a.arg for a in fnode.args.posonlyargs + fnode.args.args + fnode.args.kwonlyargs}
     for n in walk_own(fnode):
         if isinstance(n, ast.Assign):
@@ -206,10 +206,12 @@ def inline_temporaries(fnode, expr, depth=4, keep=(), inline_calls=False, inline
                         counts[x.id] = counts.get(x.id, 0) + 1
                         if len(n.targets) == 1 and isinstance(t, ast.Name):
                             defs[x.id] = n.value
+                            def_stmt_of[x.id] = n
                 if len(n.targets) == 1 and isinstance(t, ast.Tuple) and all(isinstance(e, (ast.Name, ast.Attribute)) for e in t.elts):
                     # a, b = E  ->  a is E[0], b is E[1];   a, b = (u, v)  ->  a is u, b is v
                     for k, e in enumerate(t.elts):
                         if isinstance(e, ast.Name):
+                            def_stmt_of[e.id] = n
                             if isinstance(n.value, ast.Tuple) and len(n.value.elts) == len(t.elts):
                                 defs[e.id] = n.value.elts[k]
                             elif not isinstance(n.value, (ast.Call, ast.Tuple)):
@@ -247,7 +249,7 @@ def inline_temporaries(fnode, expr, depth=4, keep=(), inline_calls=False, inline
     stored_chains = _stored_attribute_chains(fnode)
     if stored_chains:
         for k in list(defs):
-            if _reads_stored_chain(defs[k], stored_chains):
+            if _reads_stored_chain(defs[k], stored_chains, fnode, def_stmt_of.get(k)):
                 counts[k] = counts.get(k, 0) + 2
     if inline_consts:
         skip = tuple(t for t in skip if t is not ast.Constant)
@@ -355,15 +357,30 @@ def _stored_attribute_chains(fnode):
     return out
 
 
-def _reads_stored_chain(expr, stored):
-    """does the expression read an attribute chain that is stored to, or one that has a stored
-    chain as a prefix (the object it lives on is replaced)?"""
+def _reads_stored_chain(expr, stored, fnode=None, def_stmt=None):
+    """does the expression read an attribute chain that the function stores to (or one that has a
+    stored chain as a prefix: the object it lives on is replaced) *after* the point where the
+    expression is bound?  A store that textually precedes the binding statement is harmless unless
+    both sit in one loop (then it also follows it)."""
     if not stored:
         return False
+    hits = set()
     for x in ast.walk(expr):
         if isinstance(x, ast.Attribute):
             d = dotted(x)
-            if d and any(d == s_ or d.startswith(s_ + ".") for s_ in stored):
+            if d:
+                hits |= {s_ for s_ in stored if d == s_ or d.startswith(s_ + ".")}
+    if not hits:
+        return False
+    if fnode is None or def_stmt is None:
+        return True
+    dline = getattr(def_stmt, "end_lineno", def_stmt.lineno)
+    loops = [l for l in ast.walk(fnode) if isinstance(l, (ast.For, ast.While)) and l.lineno <= def_stmt.lineno <= getattr(l, "end_lineno", l.lineno)]
+    for n in ast.walk(fnode):
+        if isinstance(n, ast.Attribute) and isinstance(n.ctx, (ast.Store, ast.Del)) and dotted(n) in hits:
+            if n.lineno > dline:
+                return True
+            if any(l.lineno <= n.lineno <= getattr(l, "end_lineno", l.lineno) for l in loops):
                 return True
     return False
 
@@ -378,7 +395,7 @@ def _inline_attribute_aliases(tree):
     for f in ast.walk(tree):
         if not isinstance(f, (ast.FunctionDef, ast.AsyncFunctionDef)):
             continue
-        counts, defs = {}, {}
+        counts, defs, def_stmts = {}, {}, {}
         params = {a.arg for a in f.args.posonlyargs + f.args.args + f.args.kwonlyargs}
         stores = {}
         for n in ast.walk(f):
@@ -397,10 +414,11 @@ def _inline_attribute_aliases(tree):
                     chain = chain.value
                 if isinstance(v, ast.Attribute) and isinstance(chain, ast.Name) and (chain.id == "self" or (chain.id in params and not stores.get(chain.id))):
                     defs[n.targets[0].id] = v
+                    def_stmts[n.targets[0].id] = n
         # an attribute the function itself stores to (or a prefix of the aliased chain) is not a
         # stable thing to alias: `old = self.startInd; self.startInd = ...; use(old)`
         stored_chains = _stored_attribute_chains(f)
-        single = {k: v for k, v in defs.items() if stores.get(k) == 1 and k not in params and not _reads_stored_chain(v, stored_chains)}
+        single = {k: v for k, v in defs.items() if stores.get(k) == 1 and k not in params and not _reads_stored_chain(v, stored_chains, f, def_stmts.get(k))}
         if not single:
             continue
         import copy
